@@ -216,8 +216,16 @@ where
             datetime.format("%a %b %d").to_string()
         }
         brush_parser::prompt::PromptDateFormat::Custom(fmt) => {
+            use std::fmt::Write as _;
+
+            // N.B. Formatting fails on a conversion specification that chrono does not
+            // know; like strftime(3), leave such a format as it is (`to_string()` would panic).
             let fmt_items = chrono::format::StrftimeItems::new(fmt);
-            datetime.format_with_items(fmt_items).to_string()
+            let mut formatted = String::new();
+            if write!(formatted, "{}", datetime.format_with_items(fmt_items)).is_err() {
+                formatted.clone_from(fmt);
+            }
+            formatted
         }
     }
 }
